@@ -7,7 +7,7 @@ import os
 VERIF = os.path.dirname(os.path.dirname(os.path.abspath(__file__)))
 print("| seed | breaks | needs to manifest | first evaluation | now detected by (quick checks; violation key) |")
 print("|---|---|---|---|---|")
-for d in sorted(glob.glob(os.path.join(VERIF, "seeded", "C*-m*"))):
+for d in sorted(glob.glob(os.path.join(VERIF, "seeded", "C[0-9][0-9]-*"))):
     m = json.load(open(os.path.join(d, "meta.json")))
     hist = m.get("history") or []
     first = (hist[0].get("verdict") + (" by " + ",".join(hist[0].get("detected_by") or []) if hist[0].get("detected_by") else "")) if hist else m.get("verdict")
